@@ -14,6 +14,8 @@ POOL = {
     "Z2Z2": [(0, 0), (0, 1), (1, 0), (1, 1)],
     "U1U1": [(0, 0), (0, 1), (1, 0), (1, 1), (-1, 0), (0, -1), (2, 1), (-1, 1)],
 }
+POOL["Z3"] = [0, 1, 2]
+POOL["BoseFermi"] = list(POOL["U1U1"])
 SYMS4 = ("Z2", "U1", "Z2Z2", "U1U1")
 SYMS5 = ("Z2", "U1", "Z2Z2", "U1U1", "Z4")
 
@@ -31,8 +33,36 @@ def static_class(sr, sym, fermionic):
     }[sym, fermionic]
 
 
+_USER = {}
+P_USER_SYM = 0.06
+
+
+def pick_sym(rng, fermionic_capable=True):
+    """One of the five shipped symmetries or (6%) a user-defined one."""
+    import os
+
+    if rng.random() < float(os.environ.get("SYMV_P_USER", P_USER_SYM)):
+        return "BoseFermi" if fermionic_capable and rng.random() < 0.7 else "Z3"
+    return rng.choice(SYMS5)
+
+
+
+def user_symmetry(sr, name):
+    """An instance of a user-defined sr.Symmetry subclass (README: "See the symmray.symmetries
+    module for how to define your own symmetries. You can supply these directly to AbelianArray
+    and FermionicArray constructors"). Written the way a user would: plain methods, no caches."""
+    if name not in _USER:
+        from . import usersym
+
+        _USER["Z3"] = usersym.Z3
+        _USER["BoseFermi"] = usersym.BoseFermi
+    return _USER[name]()
+
+
 def pick_class(sr, rng, sym, fermionic, kind=None):
     """-> (cls, extra_kwargs, kind). Z4 only exists through the generic classes."""
+    if sym in R.USER_SYMS:
+        return (sr.FermionicArray if fermionic else sr.AbelianArray), {"symmetry": user_symmetry(sr, sym)}, "generic_user"
     if kind is None:
         kind = "generic" if sym == "Z4" else rng.choice(["static", "static", "generic_str", "generic_obj"])
     if sym == "Z4" and kind == "static":
